@@ -16,6 +16,17 @@ property statement:
   every step the value of every class and instance must equal the content of its cell and
   ``x is y`` must hold exactly between entities pointing to the same cell.
 
+* layer R (reference keywords): layer V's parameter declared ``allow_refs=True`` and the extra
+  creation operations ``NAn`` / ``NBn`` = constructor keyword ``p=<reference>`` whose reference yields
+  NO value at construction time (variants: the bound function raises ``param.Skip``, returns
+  ``param.Skip``, returns ``param.Undefined``, or the reference is an asynchronous generator that has
+  not produced anything yet), and ``ITi`` = the source of instance i's reference changes so that the
+  reference now yields a fresh list.  Oracle: the same ownership model -- a constructor that
+  assigned nothing is a plain constructor (instantiate=True: fresh equal copy; constant: the
+  object the class had; otherwise the instance follows its class), a reference that delivers a
+  value is an assignment on that instance.  Only histories containing such a constructor are
+  enumerated (the others are layer V's).
+
 * layer M (metadata): ``s = Selector(objects=...)``, ``n = Number(5, bounds=(0, 10))``, variants
   per_instance in {True, False}, objects as list / dict, B inheriting / redeclaring.  Oracle: frame
   rule of the statement -- an operation on ONE instance (creating it, reading ``obj.param[..]``,
@@ -61,12 +72,26 @@ V_CONFIGS = ([dict(inst=i, const=c, sub=s, pi=True)
                 for i in ('False', 'True', 'ListDefault') for c in (False, True)])
 
 
+# layer R: the same parameter with allow_refs=True; ``nov`` = how the constructor's reference yields no value
+NOV_KINDS = ('raise', 'ret', 'undef', 'agen')
+R_CONFIGS = ([dict(inst=i, const=c, sub='inherit', pi=True, nov=n)
+              for n in NOV_KINDS for i in ('False', 'ListDefault') for c in (False, True)]
+             + [dict(inst='True', const=c, sub='inherit', pi=True, nov='raise') for c in (False, True)]
+             + [dict(inst=i, const=c, sub='redeclare', pi=True, nov='raise')
+                for i in ('False', 'ListDefault') for c in (False, True)])
+
+
 def v_alphabet(cfg):
     ops = ['NA', 'NB', 'NBv', 'CA', 'CB', 'MA', 'MB']
+    nov = cfg.get('nov')
+    if nov:
+        ops[3:3] = ['NAn', 'NBn']
     for i in range(MAXI):
         ops += ['IM%d' % i, 'IR%d' % i]
         if not cfg['const']:
             ops.append('IS%d' % i)
+        if nov and nov != 'agen':
+            ops.append('IT%d' % i)
     return ops
 
 
@@ -85,12 +110,32 @@ def v_class_source(cfg):
         kw.append('constant=True')
     if not cfg['pi']:
         kw.append('per_instance=False')
+    nov = cfg.get('nov')
+    if nov:
+        kw.append('allow_refs=True')
     a = 'class A(param.Parameterized):\n    p = param.%s(default=[0]%s)\n' % (t, ''.join(', ' + k for k in kw))
     if cfg['sub'] == 'inherit':
         b = 'class B(A):\n    pass\n'
     else:
         b = 'class B(A):\n    p = param.%s()\n' % t
-    return a + b
+    return a + b + (NOV_SOURCE[nov] if nov else '')
+
+
+_SRC = ('class Src(param.Parameterized):\n    n = param.Integer(default=0)\n'
+        'srcs = {}\n'
+        'def ref():\n'
+        '    """a reference for the instance created next: yields no value while its source has n == 0"""\n'
+        '    s = srcs[len(insts)] = Src()\n'
+        '    return param.bind(fn, s.param.n)\n'
+        'def fn(n):\n    if n == 0:\n        %s\n    return [n]\n')
+NOV_SOURCE = {
+    'raise': _SRC % 'raise param.Skip()',
+    'ret': _SRC % 'return param.Skip',
+    'undef': _SRC % 'return param.Undefined',
+    'agen': ('param.parameterized.async_executor = lambda task: None    # nothing is ever delivered\n'
+             'async def agen():\n    yield [1]\n'
+             'def ref():\n    return agen\n'),
+}
 
 
 _code = {}
@@ -115,6 +160,8 @@ def op_source(op, k):
     i = arg
     return {
         'NA': 'insts.append(A())', 'NB': 'insts.append(B())', 'NBv': 'insts.append(B(p=[%d]))' % (100 + k),
+        'NAn': 'insts.append(A(p=ref()))', 'NBn': 'insts.append(B(p=ref()))',
+        'IT': 'srcs[%s].n = %d' % (i, 100 + k),
         'CA': 'A.p = [%d]' % (100 + k), 'CB': 'B.p = [%d]' % (100 + k),
         'MA': 'A.p.append(%d)' % (100 + k), 'MB': 'B.p.append(%d)' % (100 + k),
         'IM': 'insts[%s].p.append(%d)' % (i, 100 + k), 'IR': "insts[%s].param['p']" % i,
@@ -122,15 +169,25 @@ def op_source(op, k):
     }[kind]
 
 
+def _it_allowed(pre, i):
+    """ITi needs instance i to have been constructed with a reference, and the link must still be
+    there: an instance-level assignment of a plain value replaces the reference (what the source
+    does afterwards is then no concern of this property, so it is not generated)."""
+    made = [o for o in pre if o[0] == 'N']
+    return made[i].endswith('n') and ('IS%d' % i) not in pre
+
+
 def valid_history(ops):
-    n = 0
-    for op in ops:
+    made = []
+    for j, op in enumerate(ops):
         if op[0] == 'N':
-            if n >= MAXI:
+            if len(made) >= MAXI:
                 return False
-            n += 1
+            made.append(op)
         elif op[0] == 'I':
-            if int(op[-1]) >= n:
+            if int(op[-1]) >= len(made):
+                return False
+            if op[:2] == 'IT' and not _it_allowed(ops[:j], int(op[-1])):
                 return False
     return True
 
@@ -150,6 +207,8 @@ def histories(alphabet, length, first=None):
                 pre.pop()
             elif op[0] == 'I':
                 if int(op[-1]) >= n:
+                    continue
+                if op[:2] == 'IT' and not _it_allowed(pre, int(op[-1])):
                     continue
                 pre.append(op)
                 yield from rec(pre, n)
@@ -194,7 +253,7 @@ class VModel:
     def apply(self, op, k):
         kind = op.rstrip('0123456789')
         v = 100 + k
-        if kind in ('NA', 'NB'):
+        if kind in ('NA', 'NB', 'NAn', 'NBn'):     # a constructor whose reference yields no value assigns nothing
             c = kind[1]
             if self.instantiate:
                 own = self.new(self.cells[self.cls_cell(c)])
@@ -215,7 +274,7 @@ class VModel:
             self.cells[self.cls_cell('B')].append(v)
         elif kind == 'IM':
             self.cells[self.inst_cell(int(op[-1]))].append(v)
-        elif kind == 'IS':
+        elif kind in ('IS', 'IT'):                 # IT: the reference delivers a fresh list = an assignment
             self.insts[int(op[-1])][1] = self.new([v])
         elif kind == 'IR':
             pass
@@ -266,8 +325,17 @@ def v_run_all(cfg, ops, hits=None):
     """Run one history on the real code; -> list of (step, clause, detail, check); ``check`` is a
     python expression (over A, B, insts) with the value the ownership model gives.  At most one
     violation per step; after a violation the model adopts the real state and goes on."""
-    A, B = _mk_classes(v_class_source(cfg))
-    env = {'A': A, 'B': B, 'insts': []}
+    saved_executor = _P().parameterized.async_executor
+    try:
+        return _v_run_all(cfg, ops, hits)
+    finally:
+        _P().parameterized.async_executor = saved_executor      # (layer R, nov=agen installs a no-op)
+
+
+def _v_run_all(cfg, ops, hits):
+    env = {'param': _P()}
+    exec(_compiled(v_class_source(cfg)), env)
+    env['insts'] = []
     model = VModel(cfg)
     out = []
     for k, op in enumerate(ops):
@@ -496,7 +564,7 @@ def m_run(cfg, ops, hits=None):
 # shrinking, witnesses, replay
 # ---------------------------------------------------------------------------------------------
 def run_any(layer, cfg, ops, hits=None):
-    return (v_run if layer == 'V' else m_run)(cfg, ops, hits)
+    return (v_run if layer in 'VR' else m_run)(cfg, ops, hits)
 
 
 def _delete(ops, j):
@@ -552,7 +620,7 @@ def replay_script(layer, cfg, ops, clause, witness):
     head = REPLAY_HEADER.format(prop='C12', name='replay_c12.py', clause=clause, witness=witness)
     lines = [head, 'import warnings, logging', 'import param', "warnings.simplefilter('ignore')",
              "logging.getLogger('param').setLevel(logging.CRITICAL)"]
-    if layer == 'V':
+    if layer in 'VR':
         lines.append(v_class_source(cfg))
         lines.append('insts = []')
         if check is None:       # the operation itself raised
@@ -606,9 +674,23 @@ def replay_script(layer, cfg, ops, clause, witness):
 # ---------------------------------------------------------------------------------------------
 # tasks
 # ---------------------------------------------------------------------------------------------
+LAYERS = (('V', V_CONFIGS), ('R', R_CONFIGS), ('M', M_CONFIGS))
+
+
+def _has_ref_ctor(ops):
+    return any(o in ('NAn', 'NBn') for o in ops)
+
+
 def plan(tier, layer, cfg):
     """-> (length of the exhaustive enumeration, [(sampled length, number of histories), ...])"""
     inherit = cfg['sub'] == 'inherit'
+    if layer == 'R':        # (only the histories containing a reference-keyword constructor are run)
+        main = cfg['nov'] == 'raise'     # the other kinds take the same branch of _setup_params after _resolve_ref
+        if tier == 'thorough':
+            return (4, [(5, 3000)]) if main else (3, [(4, 2000), (5, 1000)])
+        if tier == 'smoke':
+            return (2, [(3, 100)])
+        return (3, [(4, 100), (5, 50)]) if main else (2, [(3, 150), (4, 50)])
     if tier == 'thorough':
         if layer == 'V':
             if not cfg['pi']:
@@ -626,18 +708,21 @@ def plan(tier, layer, cfg):
 
 def plan_text(tier):
     out = []
-    for layer, cfgs in (('V', V_CONFIGS), ('M', M_CONFIGS)):
-        kinds = sorted({(c['sub'], c['pi']) + (lambda p: (p[0], tuple(p[1])))(plan(tier, layer, c)) for c in cfgs})
+    for layer, cfgs in LAYERS:
+        kinds = sorted({(c['sub'] + (', reference %s' % ('raises Skip' if c['nov'] == 'raise' else 'returns Skip/Undefined or is a pending async generator')
+                                     if layer == 'R' else ''), c['pi'])
+                        + (lambda p: (p[0], tuple(p[1])))(plan(tier, layer, c)) for c in cfgs})
         for sub, pi, exh, smp in kinds:
-            out.append('layer %s (B %s, per_instance=%s): all histories of length %d (shorter ones are their prefixes)%s' % (
-                layer, sub, pi, exh, ''.join(' + %d seeded of length %d' % (n, L) for L, n in smp)))
+            out.append('layer %s (B %s, per_instance=%s): all histories of length %d%s (shorter ones are their prefixes)%s' % (
+                layer, sub, pi, exh, ' containing a reference-keyword constructor' if layer == 'R' else '',
+                ''.join(' + %d seeded of length %d' % (n, L) for L, n in smp)))
     return '; '.join(out) + ' -- per configuration'
 
 
 def _work(task):
     layer, cfg, mode, arg, seed = task
     _P()
-    alphabet = v_alphabet(cfg) if layer == 'V' else m_alphabet(cfg)
+    alphabet = v_alphabet(cfg) if layer in 'VR' else m_alphabet(cfg)
     hits = [0, 0]
     n = 0
     fails = []
@@ -649,7 +734,7 @@ def _work(task):
         nonlocal n
         n += 1
         try:
-            if layer == 'V':
+            if layer in 'VR':
                 rs = v_run_all(cfg, ops, hits)
             else:
                 r = m_run(cfg, ops, hits)
@@ -666,6 +751,8 @@ def _work(task):
     if mode == 'exh':
         length, first = arg
         for ops in histories(alphabet, length, first):
+            if layer == 'R' and not _has_ref_ctor(ops):
+                continue
             one(ops)
     else:
         import random
@@ -675,7 +762,7 @@ def _work(task):
         while len(keys) < count and tries < count * 30:
             tries += 1
             ops = tuple(rnd.choice(alphabet) for _ in range(length))
-            if not valid_history(ops) or ops in keys:
+            if not valid_history(ops) or ops in keys or (layer == 'R' and not _has_ref_ctor(ops)):
                 continue
             keys.add(ops)
             one(ops)
@@ -684,10 +771,10 @@ def _work(task):
 
 def make_tasks(tier, seed):
     tasks = []
-    for layer, cfgs in (('V', V_CONFIGS), ('M', M_CONFIGS)):
+    for layer, cfgs in LAYERS:
         for cfg in cfgs:
             exh, sampled = plan(tier, layer, cfg)
-            alphabet = v_alphabet(cfg) if layer == 'V' else m_alphabet(cfg)
+            alphabet = v_alphabet(cfg) if layer in 'VR' else m_alphabet(cfg)
             for first in [o for o in alphabet if o[0] != 'I']:   # a history cannot start on an instance
                 tasks.append((layer, cfg, 'exh', (exh, first), seed))
             for L, count in sampled:
@@ -696,7 +783,7 @@ def make_tasks(tier, seed):
 
 
 def witness_class(clause, layer, ops):
-    kinds = tuple(o.rstrip('0123456789') if layer == 'V' else (o if o in ('NA', 'NB') else o[:-1]) for o in ops)
+    kinds = tuple(o.rstrip('0123456789') if layer in 'VR' else (o if o in ('NA', 'NB') else o[:-1]) for o in ops)
     return (layer,) + kinds
 
 
@@ -707,7 +794,10 @@ def _run(tier, seed):
         rule='one case = one history (interleaving) over fresh classes A <- B and <= %d instances, for one '
              'configuration; layer V (values of a list-valued parameter; instantiate x constant x B '
              'inherits/redeclares): {create A/B instance, create with keyword value, instance set, class set on '
-             'A / on subclass B, in-place mutation through an instance / A / B, read obj.param[name]}; layer M '
+             'A / on subclass B, in-place mutation through an instance / A / B, read obj.param[name]}; layer R '
+             '(layer V with allow_refs=True plus: create A/B instance with a keyword REFERENCE that yields no '
+             'value at construction -- bound function raises Skip / returns Skip / returns Undefined / pending '
+             'async generator --, later delivery of a value through that reference); layer M '
              '(metadata of a Selector and a Number; per_instance x objects list/dict x B inherits/redeclares): '
              '{create instance, read obj.param[..], instance value set, append to / assign objects, assign '
              'bounds+constant, watch bounds -- on an instance; append to / assign objects, assign bounds, value '
@@ -715,7 +805,7 @@ def _run(tier, seed):
              'statement.  Distinct = distinct (layer, configuration, history); histories using an instance '
              'before creating it are not generated.' % MAXI,
         bound='%s: %s' % (tier, plan_text(tier)))
-    B.exhaustive = all(not plan(tier, l, c)[1] for l, cs in (('V', V_CONFIGS), ('M', M_CONFIGS)) for c in cs)
+    B.exhaustive = all(not plan(tier, l, c)[1] for l, cs in LAYERS for c in cs)
     tasks = make_tasks(tier, seed)
     ctx = mp.get_context('fork')
     with ctx.Pool(16) as pool:
@@ -724,8 +814,8 @@ def _run(tier, seed):
     fails, failcount = [], {}
     for (layer, cfg, mode, arg, _), (l2, m2, n, hits, fl, fc, samples) in zip(tasks, results):
         total += n
-        B.checked('C12/%s/%s' % (layer, 'value==cell-content' if layer == 'V' else 'frame:others-unchanged'), hits[0])
-        B.checked('C12/%s/%s' % (layer, 'identity<=>same-cell' if layer == 'V' else 'value-rules+effect+sharing'), hits[1])
+        B.checked('C12/%s/%s' % (layer, 'value==cell-content' if layer in 'VR' else 'frame:others-unchanged'), hits[0])
+        B.checked('C12/%s/%s' % (layer, 'identity<=>same-cell' if layer in 'VR' else 'value-rules+effect+sharing'), hits[1])
         for f in fl:
             fails.append((f[0], layer, cfg, f[1], f[2]))
         for c, k in fc.items():
